@@ -414,6 +414,7 @@ fn run_shard(space: &dyn Space, args: &Args, nshards: u64, shard: u64) -> (Acc, 
                         let tail: String = out.stderr.lines().rev().take(6).collect::<Vec<_>>().into_iter().rev().collect::<Vec<_>>().join("\n");
                         acc.violation(u, c, key, format!("{desc}\nchild stderr tail:\n{tail}"), replay);
                         acc.count("fatal_cases", 1);
+                        acc.count(&format!("tally:fatal {} unit {u} case {c}", space.name()), 1);
                         skip.push((u, c));
                     }
                     _ => {
